@@ -351,8 +351,29 @@ func engineIndex(args []string) int {
 			fatal("history load: %v", err)
 		}
 		cdb := database.NewCachedDatabase(db)
-		for k := r.Intn(4); k > 0; k-- {
-			switch r.Intn(3) {
+		// every other history is asked through the caching wrapper at the end: on its way the wrapper answers the same
+		// questions (so that answers are stored), and its cache is switched off and on around replacements
+		viaCache := i%2 == 0
+		finalQs := []string{"frobnicate widget", "delete item", "alpha beta", "widget number question"}
+		for k := r.Intn(4) + b2i(viaCache)*2; k > 0; k-- {
+			choice := r.Intn(3)
+			if viaCache {
+				choice = []int{0, 0, 3, 4, 5}[r.Intn(5)]
+			}
+			switch choice {
+			case 3:
+				for _, q := range finalQs {
+					for _, nlp := range []bool{false, true} {
+						cdb.SearchWithOptionsAndCache(q, database.SearchOptions{Limit: 8, UseNLP: nlp, AllPlatforms: true})
+					}
+				}
+				hist = append(hist, "cachedsearch")
+			case 4:
+				cdb.EnableCache(false)
+				hist = append(hist, "cacheoff")
+			case 5:
+				cdb.EnableCache(true)
+				hist = append(hist, "cacheon")
 			case 0: // replace by a list of the same length (rotated) or a different one
 				nl := append([]database.Command{}, final...)
 				if len(nl) > 1 {
@@ -382,7 +403,11 @@ func engineIndex(args []string) int {
 		}
 		cNow := wrapCorpus("hist", db, nil, "")
 		cFresh := wrapCorpus("hist", fresh, nil, "")
-		for _, q := range []string{"frobnicate widget", "delete item", "alpha beta", "widget number question"} {
+		if viaCache {
+			cdb.EnableCache(true)
+			hist = append(hist, "cacheon", "via-cache")
+		}
+		for _, q := range finalQs {
 			for _, nlp := range []bool{false, true} {
 				tr++
 				ev := &idxEv{Op: "hist", Tr: tr, Q: q, NLP: nlp, Hist: hist}
@@ -393,7 +418,11 @@ func engineIndex(args []string) int {
 						}
 					}()
 					o := database.SearchOptions{Limit: 8, UseNLP: nlp, AllPlatforms: true}
-					ev.Ans = in.answerID(cNow, toHits(db.SearchUniversal(q, o)))
+					if viaCache {
+						ev.Ans = in.answerID(cNow, toHits(cdb.SearchWithOptionsAndCache(q, o)))
+					} else {
+						ev.Ans = in.answerID(cNow, toHits(db.SearchUniversal(q, o)))
+					}
 					ev.Fresh = in.answerID(cFresh, toHits(fresh.SearchUniversal(q, o)))
 				}()
 				w.emit(ev.fill())
